@@ -65,7 +65,7 @@ PROPS = {
              '(len(data) - pos against the size about to be consumed); decoded counts pass a constant upper bound and a '
              'non-negativity test before reaching len_hints; decode loops have a visible progress argument.',
              'the fixpoint clause decode(encode(decode(x))), wall time and peak memory',
-             'call graph + exception-escape dataflow, guard dominance with exact remaining-length recognition'),
+             'call graph + exception-escape dataflow, guard dominance with exact remaining-length recognition', claimed=True),
     'C07': P('C++ full decode memory-safe and exact',
              'On the clang AST of decoder.hpp/message.hpp: every cursor write and every decode_int read is dominated by a '
              'remaining-length check covering the advance; every vector resize is bounded by an expression in end - pos; '
